@@ -138,3 +138,25 @@ def jobs(tier, seed):
                 jobs.append({"harness": "stream", "params": base, "weight": sc.get("weight", 3),
                              "cpu_cap": 900 if tier == "quick" else 3000, "wall_cap": 4000})
     return jobs
+
+
+def thorough_extra(seed):
+    jobs = []
+    names = "abcdefgh"
+    spec_nocr = {n: dict(NOCR) for n in names}
+    _sharded(jobs, {"cfg": JS, "mode": "block", "scaffold": free_doc(4, "\n")}, weight=30, spec=spec_nocr)
+    _sharded(jobs, {"cfg": CM, "mode": "parse", "scaffold": free_doc(2, "\n")}, weight=10, spec=spec_nocr)
+    dspec = {n: {"alphabet": DELIMS} for n in names}
+    for first in DELIMS:
+        sp = {k: dict(v) for k, v in dspec.items()}
+        sp["a"] = {"alphabet": first}
+        jobs.append({"harness": "stream", "params": {"cfg": JS, "mode": "inline", "scaffold": free_doc(4), "spec": sp, "name": f"delims4-{first!r}"}, "weight": 30})
+    for sc in S.ctx_scaffolds("quick"):
+        if sc.get("mode") == "block" and not sc.get("maxnest"):
+            # block contexts through the whole pipeline (children included)
+            jobs.append({"harness": "stream", "params": {"cfg": JS, "mode": "parse", "scaffold": sc["scaffold"], "spec": sc.get("spec", {}),
+                                                          "name": sc["name"] + "-pipeline"}, "weight": 15})
+    for j in jobs:
+        j["cpu_cap"] = 3000
+        j["wall_cap"] = 4000
+    return jobs
